@@ -35,7 +35,7 @@ theorem handler_iff (H : Hash) (cfg : Cfg) (s : St) (t i : Nat) (fate : Fate)
 theorem dropped_otherwise (H : Hash) (cfg : Cfg) (s : St) (t i : Nat) (fate : Fate)
     (ht : s.tasks[t]? = some ⟨i, .spawned fate⟩)
     (hn : ¬ ∃ key p, fate = .handle key p ∧ key ∉ s.inflight.getD i []) :
-    ∃ s', step H cfg s (.taskRun t) = some s' ∧ s'.tasks[t]? = some ⟨i, .done⟩ ∧
+    ∃ s', step H cfg s (.taskRun t) = some s' ∧ s'.tasks[t]? = some (⟨i, .done⟩ : Task) ∧
       s'.log = s.log ++ [.dropped t] ∧ s'.inflight = s.inflight := by
   sorry
 
